@@ -60,8 +60,7 @@ theorem gen_mole_fraction_append_zero (m M : List ℝ) (Mn : ℝ) (h : m.length 
   simp
 
 /-- **Relabelling the components, proved about the REGENERATED `coefs`** (user / zero interaction matrix, i.e.
-    `calc_delta ≤ 0`; the group-contribution double loop is covered by the hand-model theorem `coefs_perm` and the
-    correspondence only): if every per-component list and the interaction matrix are relabelled by a permutation σ of
+    `calc_delta ≤ 0`; superseded by `gen_coefs_perm` in Props/C10GenGC.lean, which also covers the group-contribution double loop): if every per-component list and the interaction matrix are relabelled by a permutation σ of
     {0..n-1}, A and B are unchanged and Ap, Bp, y are relabelled the same way. -/
 theorem gen_coefs_perm_no_gc_partial (σ : Equiv.Perm ℕ) (n : ℕ) (hσ : PermOn n σ) (T P : ℝ) (m M Pc Tc w : List ℝ)
     (δ A B G : List (List ℝ)) (cd : ℝ)
